@@ -125,6 +125,24 @@ def m_body_placeholder(pe, fv, args, kwargs, p, e):
     return [(Const(None), p)]
 
 
+def m_build_stub(pe, fv, args, kwargs, p, e):
+    fname = kwargs.get("fname", args[0] if args else Sym("fname"))
+    out = []
+    for b, q in pe.atom(f"has_default({show(fname)})", p):
+        lines = pe.new_lines(q)
+        if b:
+            t = Tmpl(["kwargs[", Hole(fname, "r"), "] = FIELD_BLOCK_VALUE"])
+        else:
+            t = Tmpl(["__", Hole(fname), " = FIELD_BLOCK_VALUE"])
+        q.bufs[lines.bid].append(Line(0, t, (fv.fi.key, 0)))
+        q.events.append(("build_call", fname, kwargs.get("alias"), kwargs.get("ftype")))
+        o = pe.new_obj(q, f"{M_BUILDER}::FieldUnpackerCodeBlock", {
+            "lines": lines, "fname": fname, "in_kwargs": Const(b)})
+        out.append((o, q))
+    return out
+
+
+
 NO_DIALECT = [(r"bool\(B\.dialect\)", False), (r"bool\(B\.default_dialect\)", False),
               (r"B\.dialect is None", True), (r"B\.default_dialect is None", True)]
 WITH_DIALECT = [(r"bool\(B\.dialect\)", True), (r"bool\(B\.default_dialect\)", True),
@@ -153,25 +171,9 @@ def explore_all(repo: Repo, tier: str = "quick") -> Corpus:
 
     # ---- builder.py : from_dict body.  The per-field block is analysed by scenario "build";
     # here it is summarised (its lines are one marker line) so that the layout code is explored.
-    def m_build(pe, fv, args, kwargs, p, e):
-        fname = kwargs.get("fname", args[0] if args else Sym("fname"))
-        out = []
-        for b, q in pe.atom(f"has_default({show(fname)})", p):
-            lines = pe.new_lines(q)
-            if b:
-                t = Tmpl(["kwargs[", Hole(fname, "r"), "] = FIELD_BLOCK_VALUE"])
-            else:
-                t = Tmpl(["__", Hole(fname), " = FIELD_BLOCK_VALUE"])
-            q.bufs[lines.bid].append(Line(0, t, (fv.fi.key, 0)))
-            q.events.append(("build_call", fname, kwargs.get("alias"), kwargs.get("ftype")))
-            o = pe.new_obj(q, f"{M_BUILDER}::FieldUnpackerCodeBlock", {
-                "lines": lines, "fname": fname, "in_kwargs": Const(b)})
-            out.append((o, q))
-        return out
-
     run_scenario(repo, c, "unpack_lines", repo.func(M_BUILDER, "CodeBuilder._add_unpack_method_lines"), s_B,
                  inline_depth=6, max_steps=steps, assume=NO_DEBUG + NO_DIALECT,
-                 models={f"{M_BUILDER}::FieldUnpackerCodeBlockBuilder.build": m_build},
+                 models={f"{M_BUILDER}::FieldUnpackerCodeBlockBuilder.build": m_build_stub},
                  force_opaque={"build", "__get_field_alias"})
     run_scenario(repo, c, "field_alias", repo.func(M_BUILDER, "CodeBuilder.__get_field_alias"),
                  lambda ev, p: {"fname": Sym("fname", {"FIELDNAME"})}, inline_depth=2, max_steps=steps)
